@@ -4,6 +4,7 @@ from ..runner import Spec, Case
 from .. import core
 
 LINE = re.compile(r'O f=\[(.*?)\] fe=(\S+) b=\[(.*?)\] be=(\S+) len=(\S+) get=(.*)$')
+GLINE = re.compile(r'O g=\[(.*?)\] ge=(\S+)$')
 
 def _items(s): return s.split(' ') if s else []
 
@@ -14,6 +15,13 @@ def cmp_lines(c, m):
     if c == m: return None
     if c == 'O crash':
         return None if ('=ub' in m or '=hang' in m) else 'implementation crashed where the model predicts a defined result'
+    ga, gb = GLINE.match(c), GLINE.match(m)
+    if ga and gb:       # `G`: a walk whose body calls get
+        ci, mi = _items(ga.group(1)), _items(gb.group(1))
+        if gb.group(2) in ('ub', 'hang'):
+            k = min(len(mi), 16) if ga.group(2) == 'fuel' else len(mi)
+            return None if ci[:k] == mi[:k] else 'items of the walk with get before the model leaves the protocol differ'
+        return 'walk with get differs'
     a, b = LINE.match(c), LINE.match(m)
     if not a or not b: return 'different kind of observation'
     for (ci, ce, mi, me, what) in ((a.group(1), a.group(2), b.group(1), b.group(2), 'forward'), (a.group(3), a.group(4), b.group(3), b.group(4), 'backward')):
@@ -123,6 +131,46 @@ def any_view(rng, depth, n):
     e, hl = any_view(rng, depth - 1, n)
     return f'(map {e} {rng.randint(-3, 3)} {rng.randint(-5, 5)})', hl
 
+
+def held_view(rng, n):
+    """an expression of n items whose cursor is held by the caller and whose `get` leaves a walk alone: a container,
+    possibly under whole-sequence slices / a filter that accepts everything it is asked about (length then unknown)"""
+    e = base(rng, n, ('array', 'list', 'tuple', 'table', 'tree', 'rtree', 'mlist', 'marray', 'mtable', 'mtree'))
+    r = rng.random()
+    if r < 0.25: return rng.choice([f'(slice {e})', f'(slice {e} _ _ 1)', f'(reverse {e})', f'(slice {e} 0 {n})']), n
+    if r < 0.40: return f'(filter {e} {rng.randint(1, 3)} 0)', -1
+    return e, n
+
+def get_walk_lines(rng, count):
+    """`G i k e`: (a) objects whose get is pure — any i, any k (also out of range: the exception is swallowed);
+    (b) Range / Map / Zip / enumerate with k = the index of the item just handed out (get writes the very value the
+    cursor holds: the walk must go on undisturbed)"""
+    out = []
+    for _ in range(count):
+        n = rng.randint(0, 9)
+        if rng.random() < 0.6:
+            e, m = held_view(rng, n)
+            i = rng.randint(0, max(0, n)); k = rng.randint(-n - 2, n + 1)
+        else:
+            kind = rng.choice(('range', 'map', 'zip', 'enum', 'slice'))
+            b = base(rng, n, ('array', 'list', 'marray', 'mlist'))
+            if kind == 'range': e = f'(range {n})'
+            elif kind == 'map': e = f'(map {b} {rng.randint(-3, 3)} {rng.randint(-5, 5)})'
+            elif kind == 'zip': e = f"(zip {b} {base(rng, n, ('array', 'list', 'range'))})"
+            elif kind == 'enum': e = f'(enum {b})'
+            else: e = f'(slice (range {n}))'
+            i = rng.randint(0, max(0, n - 1)); k = i if rng.random() < 0.7 or n == 0 else i - n
+        out.append(f'G {i} {k} {e}')
+    return out
+
+def zip_same_lines(rng, count):
+    """`Z k e`: one object k times in a Zip, for objects whose cursor is the pointer the caller holds"""
+    out = []
+    for _ in range(count):
+        n = rng.randint(0, 8)
+        e, m = held_view(rng, n)
+        out.append(f'Z {rng.randint(1, 4)} {e}')
+    return out
 
 # ------------------------------------------------------------------------------------------------ mutated containers
 def sim_seq(kind, vals, op):
